@@ -808,4 +808,352 @@ theorem wf_run (ops : List Op) : ∀ (st : St), WF st → (∀ op ∈ ops, op.WF
     exact ih (apply st op) (wf_apply st h op (hops op List.mem_cons_self))
       (fun o ho => hops o (List.mem_cons_of_mem _ ho))
 
+/-! ### Register and the initial state -/
+
+theorem mem_insertOpt {o p : Opt} : ∀ {l : List Opt}, p ∈ insertOpt o l → p = o ∨ p ∈ l
+  | [], h => by simp [insertOpt] at h; exact Or.inl h
+  | q :: rest, h => by
+    by_cases hq : q.key = o.key
+    · simp [insertOpt, hq] at h
+      rcases h with h | h
+      · exact Or.inl h
+      · exact Or.inr (List.mem_cons_of_mem _ h)
+    · simp [insertOpt, hq] at h
+      rcases h with h | h
+      · exact Or.inr (h ▸ List.mem_cons_self)
+      · rcases mem_insertOpt h with h | h
+        · exact Or.inl h
+        · exact Or.inr (List.mem_cons_of_mem _ h)
+
+theorem find?_insertOpt_other (o : Opt) (k : Key) (hk : k ≠ o.key) : ∀ (l : List Opt),
+    (insertOpt o l).find? (fun p => p.key = k) = l.find? (fun p => p.key = k)
+  | [] => by
+    have : ¬ o.key = k := fun h => hk h.symm
+    simp [insertOpt, List.find?, this]
+  | p :: rest => by
+    by_cases hp : p.key = o.key
+    · have h1 : ¬ p.key = k := fun h => hk (h ▸ hp)
+      have h2 : ¬ o.key = k := fun h => hk h.symm
+      simp [insertOpt, hp, List.find?, h2, h1]
+    · by_cases hpk : p.key = k
+      · simp [insertOpt, List.find?, hpk, hk]
+      · simp [insertOpt, hp, List.find?, hpk, find?_insertOpt_other o k hk rest]
+
+theorem find?_insertOpt_same (o : Opt) : ∀ (l : List Opt),
+    (insertOpt o l).find? (fun p => p.key = o.key) = some o
+  | [] => by simp [insertOpt, List.find?]
+  | p :: rest => by
+    by_cases hp : p.key = o.key
+    · simp [insertOpt, hp, List.find?]
+    · simp [insertOpt, hp, List.find?, find?_insertOpt_same o rest]
+
+theorem insertOpt_keys_mem (o : Opt) (k : Key) : ∀ (l : List Opt),
+    k ∈ (insertOpt o l).map (·.key) → k = o.key ∨ k ∈ l.map (·.key)
+  | [], h => by simp [insertOpt] at h; exact Or.inl h
+  | p :: rest, h => by
+    by_cases hp : p.key = o.key
+    · simp [insertOpt, hp] at h
+      rcases h with h | h
+      · exact Or.inl h
+      · exact Or.inr (by simp; exact Or.inr h)
+    · simp [insertOpt, hp] at h
+      rcases h with h | h
+      · exact Or.inr (by simp [h])
+      · rcases insertOpt_keys_mem o k rest (by simpa using h) with h | h
+        · exact Or.inl h
+        · exact Or.inr (by simp at h ⊢; exact Or.inr h)
+
+theorem insertOpt_nodup (o : Opt) : ∀ (l : List Opt), (l.map (·.key)).Nodup → ((insertOpt o l).map (·.key)).Nodup
+  | [], _ => by simp [insertOpt]
+  | p :: rest, h => by
+    simp only [List.map_cons, List.nodup_cons] at h
+    by_cases hp : p.key = o.key
+    · simp only [insertOpt, hp, if_true, List.map_cons, List.nodup_cons]
+      rw [← hp]; exact h
+    · simp only [insertOpt, hp, if_false, List.map_cons, List.nodup_cons]
+      refine ⟨?_, insertOpt_nodup o rest h.2⟩
+      intro hmem
+      rcases insertOpt_keys_mem o p.key rest hmem with e | e
+      · exact hp e
+      · exact h.1 e
+
+theorem mkOpt_props {key : Key} {ty : OptType} {rl rxi : Nat} {pvs : Option (List PV)} {vf mg : Nat} {dv : Val} {o : Opt}
+    (h : mkOpt key ty rl rxi pvs vf mg dv = .ok o) : RegOK o ∧ o.user = none ∧ o.key = key := by
+  unfold mkOpt at h
+  split at h
+  · cases h
+  · split at h
+    · cases h
+    · injection h with h
+      subst h
+      refine ⟨?_, rfl, rfl⟩
+      unfold RegOK mkRx
+      simp only []
+      intro hp
+      by_cases hr : rxi ≠ 0
+      · simp [hr, Rx.isNone]
+      · cases pvs with
+        | none => simp at hp
+        | some l => simp [hr, Rx.isNone]
+
+theorem wf_register (st : St) (h : WF st) (o : Opt) (hreg : RegOK o) (hu : o.user = none) (hk : o.key ≠ rlKey) :
+    WF (register st o) := by
+  refine ⟨insertOpt_nodup o st.opts h.nodup, ?_, ?_, ?_, h.fileWF⟩
+  · intro p hp
+    rcases mem_insertOpt hp with rfl | hp
+    · exact hreg
+    · exact h.reg p hp
+  · obtain ⟨r, hr1, hr2, hr3, hr4⟩ := h.rl
+    refine ⟨r, ?_, hr2, hr3, hr4⟩
+    show (insertOpt o st.opts).find? _ = _
+    rw [find?_insertOpt_other o rlKey (fun e => hk e.symm)]
+    exact hr1
+  · intro p hp c hc
+    rcases mem_insertOpt hp with rfl | hp
+    · rw [hu] at hc; cases hc
+    · exact h.uvalid p hp c hc
+
+theorem wf_init (persist : Bool) : WF (init persist) := by
+  refine ⟨?_, ?_, ?_, ?_, ?_⟩
+  · simp [init, elOpt, rlOpt, elKey, rlKey]
+  · intro o ho
+    simp [init] at ho
+    rcases ho with rfl | rfl <;> simp [RegOK, elOpt, rlOpt, Rx.isNone]
+  · refine ⟨rlOpt, ?_, rfl, rfl, ?_⟩
+    · simp [St.find, init, List.find?, elOpt, rlOpt, elKey, rlKey]
+    · simp [init, layered, rlOpt, levelOf]
+  · intro o ho c hc
+    simp [init] at ho
+    rcases ho with rfl | rfl <;> simp [elOpt, rlOpt] at hc
+  · intro t ht; simp [init] at ht
+
+/-! ### Expand / Flatten and the saved user layer -/
+
+theorem conflicts_comm (p q : Key) : conflicts p q = conflicts q p := by
+  unfold conflicts; exact Bool.or_comm _ _
+
+theorem foldl_putLeaf_append : ∀ (m t : List (Key × Val)),
+    (∀ e ∈ t, ∀ kv ∈ m, conflicts e.1 kv.1 = false) →
+    (m.map (·.1)).Pairwise (fun a b => conflicts a b = false) →
+    m.foldl putLeaf t = t ++ m
+  | [], t, _, _ => by simp
+  | kv :: rest, t, h1, h2 => by
+    simp only [List.map_cons, List.pairwise_cons] at h2
+    have hput : putLeaf t kv = t ++ [kv] := by
+      unfold putLeaf
+      congr 1
+      rw [List.filter_eq_self]
+      intro e he
+      simp [h1 e he kv List.mem_cons_self]
+    simp only [List.foldl_cons, hput]
+    rw [foldl_putLeaf_append rest (t ++ [kv])]
+    · simp
+    · intro e he kv' hkv'
+      rcases List.mem_append.mp he with he | he
+      · exact h1 e he kv' (List.mem_cons_of_mem _ hkv')
+      · simp at he; subst he
+        exact h2.1 kv'.1 (List.mem_map_of_mem hkv')
+    · exact h2.2
+
+theorem expand_eq_self (m : List (Key × Val)) (h : PrefixFree (m.map (·.1))) : expand m = m := by
+  unfold expand
+  rw [foldl_putLeaf_append m [] (by intro e he; cases he) h]
+  simp
+
+def ueList (l : List Opt) : List (Key × Val) := l.filterMap (fun o => o.user.map (fun c => (o.key, jsonVal o.ty c)))
+
+theorem ueList_keys_sublist : ∀ (l : List Opt), ((ueList l).map (·.1)).Sublist (l.map (·.key))
+  | [] => by simp [ueList]
+  | p :: rest => by
+    have ih := ueList_keys_sublist rest
+    unfold ueList at ih ⊢
+    cases hu : p.user with
+    | none => simp [List.filterMap_cons, hu]; exact List.Sublist.cons _ ih
+    | some c => simp [List.filterMap_cons, hu]; exact ih
+
+theorem lookup_none_of_not_mem (m : List (Key × Val)) (k : Key) (h : k ∉ m.map (·.1)) : lookup m k = none := by
+  unfold lookup
+  cases hf : m.find? (fun e => e.1 = k) with
+  | none => rfl
+  | some e =>
+    exfalso
+    have h1 := List.mem_of_find?_eq_some hf
+    have h2 := List.find?_some hf
+    simp at h2
+    exact h (h2 ▸ List.mem_map_of_mem h1)
+
+theorem lookup_ueList : ∀ (l : List Opt), (l.map (·.key)).Nodup → ∀ o ∈ l,
+    lookup (ueList l) o.key = o.user.map (fun c => jsonVal o.ty c)
+  | [], _, o, ho => by cases ho
+  | p :: rest, hnd, o, ho => by
+    simp only [List.map_cons, List.nodup_cons] at hnd
+    have hsub := ueList_keys_sublist rest
+    rcases List.mem_cons.mp ho with rfl | ho'
+    · cases hu : o.user with
+      | none =>
+        have : ueList (o :: rest) = ueList rest := by simp [ueList, List.filterMap_cons, hu]
+        rw [this]
+        simp only [Option.map_none]
+        exact lookup_none_of_not_mem _ _ (fun hm => hnd.1 (hsub.subset hm))
+      | some c =>
+        have : ueList (o :: rest) = (o.key, jsonVal o.ty c) :: ueList rest := by simp [ueList, List.filterMap_cons, hu]
+        rw [this]
+        simp [lookup, List.find?]
+    · have hne : p.key ≠ o.key := fun e => hnd.1 (e ▸ List.mem_map_of_mem ho')
+      have ih := lookup_ueList rest hnd.2 o ho'
+      cases hu : p.user with
+      | none =>
+        have : ueList (p :: rest) = ueList rest := by simp [ueList, List.filterMap_cons, hu]
+        rw [this]; exact ih
+      | some c =>
+        have : ueList (p :: rest) = (p.key, jsonVal p.ty c) :: ueList rest := by simp [ueList, List.filterMap_cons, hu]
+        rw [this]
+        unfold lookup at ih ⊢
+        simp only [List.find?, hne, decide_false]
+        exact ih
+
+theorem userEntries_eq (st : St) : userEntries st = ueList st.opts := rfl
+
+theorem replOne_userEntries (st : St) (h : WF st) (o : Opt) (ho : o ∈ st.opts) :
+    replOne (userEntries st) o = o.user ∧ replErr (userEntries st) o = none := by
+  have hl := lookup_ueList st.opts h.nodup o ho
+  rw [← userEntries_eq] at hl
+  unfold replOne replErr
+  rw [hl]
+  cases hu : o.user with
+  | none => simp
+  | some c => simp [h.uvalid o ho c hu]
+
+theorem map_id_of_forall {l : List Opt} {f : Opt → Opt} (h : ∀ o ∈ l, f o = o) : l.map f = l := by
+  induction l with
+  | nil => rfl
+  | cons a r ih =>
+    simp only [List.map_cons]
+    rw [h a List.mem_cons_self, ih (fun o ho => h o (List.mem_cons_of_mem _ ho))]
+
+theorem updateGate_self (st : St) (h : WF st) : updateGate st = st := by
+  obtain ⟨r, hr1, _, _, hr4⟩ := h.rl
+  unfold updateGate
+  rw [hr1]
+  simp only []
+  rw [← hr4]
+
+theorem replaceUser_userEntries (st : St) (h : WF st) :
+    replaceUser st (userEntries st) = (signal st, []) := by
+  unfold replaceUser
+  have hopts : st.opts.map (fun o => { o with user := replOne (userEntries st) o }) = st.opts := by
+    apply map_id_of_forall
+    intro o ho
+    rw [(replOne_userEntries st h o ho).1]
+  have herrs : st.opts.filterMap (replErr (userEntries st)) = [] := by
+    rw [List.filterMap_eq_nil_iff]
+    intro o ho
+    exact (replOne_userEntries st h o ho).2
+  simp only [hopts, herrs]
+  rw [show ({ st with opts := st.opts } : St) = st from rfl, updateGate_self st h]
+
+theorem userEntries_prefixFree (st : St) (hp : PrefixFree (st.opts.map (·.key))) :
+    PrefixFree ((userEntries st).map (·.1)) := by
+  unfold PrefixFree at *
+  exact List.Pairwise.sublist (ueList_keys_sublist st.opts) hp
+
+theorem load_save (st : St) (h : WF st) (hp : PrefixFree (st.opts.map (·.key))) (hpers : st.persist = true) (b : Bool) :
+    load (save st) b = (signal (save st), .ok []) := by
+  have hs : save st = { st with file := .tree (userEntries st) } := by
+    unfold save; rw [hpers, expand_eq_self _ (userEntries_prefixFree st hp)]; simp
+  have hwf := wf_save st h
+  have hue : userEntries (save st) = userEntries st := by unfold userEntries; rw [save_opts]
+  unfold load
+  rw [save_persist, hpers]
+  simp only [Bool.not_true, Bool.false_eq_true, if_false]
+  have hfile : (save st).file = .tree (userEntries st) := by rw [hs]
+  rw [hfile]
+  simp only [flatten]
+  rw [← hue]
+  simp only [replaceUser_userEntries (save st) hwf]
+  simp
+
+/-! ### getter closures along histories -/
+
+theorem get_eq_of (st st' : St) (h1 : st'.opts = st.opts) (h2 : st'.gate = st.gate) (k : Key) (fb : GVal) :
+    get st' k fb = get st k fb := by
+  unfold get getCache St.find
+  rw [h1, h2]
+
+theorem setUser_gen (st : St) (h : WF st) (k : Key) (v : Val) (hv : v.WF) :
+    (setUser st k v).1.gen = st.gen + 1 ∨ (setUser st k v).1 = st := by
+  unfold setUser
+  rcases writeUser_cases st h k v hv with ⟨_, e⟩ | ⟨o, _, _, e⟩ | ⟨o, c, _, _, _, e⟩ | ⟨o, _, _, _, _, e⟩
+  · rw [e]; exact Or.inr rfl
+  · rw [e]; left; simp only []; rw [save_gen]; simp [signal, (putOpt_misc _ _).1]
+  · rw [e]; left; simp only []; rw [save_gen]; simp [signal, (putOpt_misc _ _).1]
+  · rw [e]; exact Or.inr rfl
+
+theorem setDflt_gen (st : St) (h : WF st) (k : Key) (v : Val) (hv : v.WF) :
+    (setDflt st k v).1.gen = st.gen + 1 ∨ (setDflt st k v).1 = st := by
+  unfold setDflt
+  rcases writeDflt_cases st h k v hv with ⟨_, e⟩ | ⟨o, _, _, e⟩ | ⟨o, c, _, _, _, e⟩ | ⟨o, _, _, _, _, e⟩
+  · rw [e]; exact Or.inr rfl
+  · rw [e]; left; simp [signal, (putOpt_misc _ _).1]
+  · rw [e]; left; simp [signal, (putOpt_misc _ _).1]
+  · rw [e]; exact Or.inr rfl
+
+theorem updateGate_gen (s : St) : (updateGate s).gen = s.gen := by unfold updateGate; split <;> rfl
+
+theorem replaceUser_gen (st : St) (m : List (Key × Val)) : (replaceUser st m).1.gen = st.gen + 1 := by
+  simp [replaceUser, signal, updateGate_gen]
+
+theorem replaceDflt_gen (st : St) (m : List (Key × Val)) : (replaceDflt st m).1.gen = st.gen + 1 := by
+  simp [replaceDflt, signal, updateGate_gen]
+
+/-- Every call either hands out a new validity flag or leaves everything a getter reads untouched. -/
+theorem apply_gen_or_same (st : St) (h : WF st) (op : Op) (hop : op.WF) :
+    (apply st op).gen = st.gen + 1 ∨
+    ((apply st op).gen = st.gen ∧ (apply st op).opts = st.opts ∧ (apply st op).gate = st.gate) := by
+  cases op with
+  | set k v =>
+    rcases setUser_gen st h k v hop with e | e
+    · exact Or.inl e
+    · right; simp only [apply]; rw [e]; exact ⟨rfl, rfl, rfl⟩
+  | setd k v =>
+    rcases setDflt_gen st h k v hop with e | e
+    · exact Or.inl e
+    · right; simp only [apply]; rw [e]; exact ⟨rfl, rfl, rfl⟩
+  | rep m => exact Or.inl (replaceUser_gen st m)
+  | repd m => exact Or.inl (replaceDflt_gen st m)
+  | save => right; exact ⟨save_gen st, save_opts st, save_gate st⟩
+  | load b =>
+    simp only [apply]
+    unfold load
+    split
+    · right; exact ⟨rfl, rfl, rfl⟩
+    · split
+      · right; exact ⟨rfl, rfl, rfl⟩
+      · right; exact ⟨rfl, rfl, rfl⟩
+      · left
+        rename_i t _
+        have := replaceUser_gen st (flatten t)
+        simp only []
+        split <;> exact this
+  | wfile f => right; exact ⟨rfl, rfl, rfl⟩
+
+theorem cinv_apply (st : St) (h : WF st) (op : Op) (hop : op.WF) (cl : Closure) (hc : CInv st cl) :
+    CInv (apply st op) cl := by
+  rcases apply_gen_or_same st h op hop with e | ⟨e1, e2, e3⟩
+  · refine ⟨by rw [e]; exact Nat.le_succ_of_le hc.1, ?_⟩
+    intro hf; rw [e] at hf; have := hc.1; omega
+  · refine ⟨by rw [e1]; exact hc.1, ?_⟩
+    intro hf; rw [e1] at hf
+    rw [get_eq_of st _ e2 e3]; exact hc.2 hf
+
+theorem cinv_mk (st : St) (k : Key) (fb : GVal) : CInv st (mkClosure st k fb) := ⟨Nat.le_refl _, fun _ => rfl⟩
+
+theorem call_current (st : St) (cl : Closure) (hc : CInv st cl) :
+    (cl.call st).2 = get st cl.key cl.fb ∧ CInv st (cl.call st).1 ∧
+      (cl.call st).1.key = cl.key ∧ (cl.call st).1.fb = cl.fb := by
+  unfold Closure.call
+  by_cases hf : cl.flag = st.gen
+  · rw [if_pos hf]; exact ⟨hc.2 hf, hc, rfl, rfl⟩
+  · rw [if_neg hf]; exact ⟨rfl, ⟨Nat.le_refl _, fun _ => rfl⟩, rfl, rfl⟩
+
 end PB.Config
